@@ -993,6 +993,9 @@ func corpus() []*D {
 }
 
 func main() {
+	if len(os.Args) == 4 && os.Args[1] == "-reads" {
+		os.Exit(readsMain(os.Args[2], os.Args[3]))
+	}
 	cfg := hx.ParseFlags()
 	out, err := hx.NewOut(cfg.OutDir)
 	if err != nil {
